@@ -171,6 +171,7 @@ C10_Units(r) ==
        (~Ignored(r, i) /\ sp.ok /\ (sp.breaks > 0 \/ i = 1) /\ r.ftab[i][7] = 0) =>
           /\ \A k \in 1..Len(sp.tail) : sp.tail[k] = unit
           /\ Len(sp.tail) = (r.ftab[i][5] + r.cfg.ci * r.ftab[i][6]) * unitLen
+          \* (the implementation saturates the soft continuation width at 255 columns: known finding F4, matched by its site)
 
 ---------------------------------------------------------------------------
 (* C14 on the public parser's result *)
